@@ -51,6 +51,15 @@ def _top_seq(body):
             blk = el_
         elif calls(el_) == 0 and th_.get("k") == "BlockExpr":
             blk = th_
+    if blk.get("k") == "Match" and blk.get("src") == "match" and len(blk.get("arms") or []) == 2:
+        # `match changes.as_slice() { [] => self, [..] => { <the work> } }`: the work is the arm that calls something
+        def calls_(x_):
+            return sum(1 for y_ in hir.nodes(x_) if y_.get("k") in ("Call", "MethodCall"))
+        a0_, a1_ = hir.strip(blk["arms"][0]["body"]), hir.strip(blk["arms"][1]["body"])
+        if calls_(a0_) == 0 and a1_.get("k") == "BlockExpr":
+            blk = a1_
+        elif calls_(a1_) == 0 and a0_.get("k") == "BlockExpr":
+            blk = a0_
     if blk.get("k") != "BlockExpr":
         return None
     blk = blk["b"]
@@ -85,10 +94,17 @@ def rule_rebuild(prog):
             continue
         b = bs[0]
         # (private helpers of the type that only split the work - `self.reparse(changes).reanalyze()` - are read in place)
-        b = dict(b, body=hir.simplify(hir.inline_calls(prog, b["body"], c, depth=2, max_nodes=120,
-                                                       only=lambda hb: hb["d"].startswith("AnalyzedSource::") and hb["d"] not in ("AnalyzedSource::new", "AnalyzedSource::update"))))
+        b0 = b
+        b = dict(b0, body=hir.simplify(hir.inline_calls(prog, b0["body"], c, depth=2, max_nodes=120,
+                                                        only=lambda hb: hb["d"].startswith("AnalyzedSource::") and hb["d"] not in ("AnalyzedSource::new", "AnalyzedSource::update"))))
         item = "AnalyzedSource::" + fname
         ts = _top_seq(b)
+        if ts is None:
+            # the work is spread over helpers of another type of the same file (`SyntacticSource::from_text(text).analyzed()`): read in place too
+            b = dict(b0, body=hir.simplify(hir.inline_calls(prog, b0["body"], c, depth=2, max_nodes=120,
+                                                            only=lambda hb: c.file_of(hb["sp"]) == c.file_of(b0["sp"]) and
+                                                            hb["d"] not in ("AnalyzedSource::new", "AnalyzedSource::update"))))
+            ts = _top_seq(b)
         if ts is None:
             out.missing(item + " body block")
             continue
@@ -192,6 +208,15 @@ def rule_rebuild(prog):
                         r_ = r_["e"]
                     if isinstance(r_, dict) and r_.get("k") == "BlockExpr" and r_["b"] is gblk and place(a_["l"]):
                         dests.add(place(a_["l"]))
+            if ret is not None and ret.get("k") == "Path" and hir.path_local(ret):
+                # (the value may have been put together one statement earlier, in a block of its own: a helper read in place)
+                ret_id_ = hir.path_local(ret)["id"]
+                for l_ in hir.nodes(b["body"], "Let"):
+                    if l_["pat"].get("k") == "Binding" and l_["pat"]["id"] == ret_id_ and l_.get("init") is not None:
+                        i_ = hir.strip(l_["init"])
+                        if i_.get("k") == "BlockExpr" and i_["b"].get("expr") is not None and hir.strip(i_["b"]["expr"]).get("k") == "Struct" and \
+                                any(x is build_call for x in hir.nodes(i_)):
+                            ret = hir.strip(i_["b"]["expr"])
             if ret is not None:
                 if ret.get("k") == "Path":
                     rp = place(ret)
@@ -232,6 +257,14 @@ def rule_rebuild(prog):
             # the text that is kept (and lexed) is the text that was handed in: every position a client sends refers to *its* text
             pids = {bd["id"] for pp in b["params"] for bd in hir.pat_bindings(pp) if "String" in c.tstr(pp["t"]) or "str" in c.tstr(pp["t"])}
             defs_ = _let_defs(b["body"])
+            pat_defs_ = {}
+            for l_ in hir.nodes(b["body"], "Let"):
+                pt_ = hir.pat_strip(l_["pat"]) if l_.get("pat") else {}
+                if pt_.get("k") == "Struct" and l_.get("init") is not None:
+                    for f_ in pt_["fields"]:
+                        fp_ = hir.pat_strip(f_["pat"])
+                        if fp_.get("k") == "Binding":
+                            pat_defs_[fp_["id"]] = (l_["init"], f_["name"])
             CHANGERS = ("strip_prefix", "strip_suffix", "trim", "trim_start", "trim_end", "trim_matches", "trim_start_matches",
                         "trim_end_matches", "replace", "replacen", "to_lowercase", "to_uppercase", "nfc", "nfkc", "lines", "split",
                         "truncate", "remove", "retain", "drain", "push_str", "push", "insert", "insert_str", "replace_range")
@@ -245,12 +278,28 @@ def rule_rebuild(prog):
                 if pl:
                     if pl["id"] in pids:
                         return True
-                    if pl["id"] in defs_ and depth < 4:
+                    if pl["id"] in defs_ and depth < 6:
                         d_ = defs_[pl["id"]]
                         if any(m_.get("k") == "MethodCall" and m_["m"] in CHANGERS for m_ in hir.nodes(d_)) and \
                                 any((hir.path_local(x_) or {}).get("id") in pids for x_ in hir.nodes(d_, "Path")):
                             return False
                         return origin(d_, depth + 1)
+                    if pl["id"] in pat_defs_ and depth < 6:
+                        # taken out of a struct by a pattern (`let Self { text, tokens, ast } = syntactic;`): the field of the value
+                        init_, fname_ = pat_defs_[pl["id"]]
+                        v_ = hir.strip(init_)
+                        for _ in range(3):
+                            pl2 = hir.path_local(hir.strip_ref(v_))
+                            if pl2 and pl2["id"] in defs_:
+                                v_ = hir.strip(defs_[pl2["id"]])
+                            elif v_.get("k") == "BlockExpr" and v_["b"].get("expr") is not None:
+                                v_ = hir.strip(v_["b"]["expr"])
+                            else:
+                                break
+                        if v_.get("k") == "Struct":
+                            for fl_ in v_["fields"]:
+                                if fl_["name"] == fname_:
+                                    return origin(fl_["e"], depth + 1)
                 return None
             kept = None
             for st_ in hir.nodes(b["body"], "Struct"):
